@@ -622,3 +622,8 @@ def impl_parse_many(case, scratch):
             outs.append({"raised": type(e).__name__, "where": tb[-1].name if tb else "", "msg": str(e)[:200]})
             ctx.parser_stack = []
     return {"outcome": "ok", "outs": outs}
+
+
+def impl_detect_loop(case, scratch):
+    from wikitextprocessor.core import detect_expand_template_loop
+    return {"outcome": "ok", "outs": [bool(detect_expand_template_loop(list(s))) for s in case["stacks"]]}
